@@ -88,12 +88,12 @@ class Exec:
 
     def start(self, create_task=True):
         case = self.case
-        cls = programs.make_class(case['program'])
+        cls = make_process_class(case)
         pid = case.get('pid', 1)
         self.world.listener_plan[pid] = case.get('listener', [])
         with self.loop.as_running():
             try:
-                self.proc = cls(inputs=case['program'].get('inputs'), pid=pid, loop=self.loop)
+                self.proc = cls(inputs=programs.dec(case.get('inputs', (case.get('program') or {}).get('inputs'))), pid=pid, loop=self.loop)
             except Exception as exc:  # noqa: BLE001
                 self.construct_error = exc
                 return False
@@ -125,11 +125,14 @@ class Exec:
         if self.capture is not None:
             self.checkpoint('entered')
 
-    def checkpoint(self, why):
+    def checkpoint(self, why, loader=None):
         """Serialise the process right now (so later mutation of the live process cannot show)."""
+        import copy
+
         from . import media
 
         proc = self.proc
+        loader = loader if loader is not None else getattr(self, 'capture_loader', None)
         rec = {
             'index': len(self.checkpoints),
             'why': why,
@@ -139,7 +142,12 @@ class Exec:
             'waits': self._wait_serial(),
         }
         try:
-            rec['data'] = media.save(proc, self.capture)
+            bundle = media.bundle_of(proc, loader)
+            if self.capture == 'bundle':
+                rec['bundle'] = copy.deepcopy(bundle)
+                rec['observed'] = observe(proc)
+            else:
+                rec['data'] = media.encode(bundle, self.capture)
         except Exception as exc:  # noqa: BLE001 - whether saving may fail here is the oracle's business
             rec['error'] = exc
         self.checkpoints.append(rec)
@@ -362,6 +370,63 @@ class Exec:
             'final': self.proc.state.value if self.proc is not None else None,
             'escapes': [[c['message'][:60], c['exc_type'], c['exc_str']] for c in self.loop.escapes()],
         }
+
+
+def make_process_class(case):
+    if 'outline' in case:
+        from . import wc
+
+        return wc.make_workchain(case['outline'], case.get('behaviour', {}))
+    return programs.make_class(case['program'])
+
+
+def plain(value):
+    """Nested mappings (AttributesFrozendict, AttributesDict, dict) as plain dicts, for comparison."""
+    from collections.abc import Mapping
+
+    if isinstance(value, Mapping):
+        return {k: plain(v) for k, v in value.items()}
+    if hasattr(value, '__dict__') and type(value).__name__ == 'AttributesDict':
+        return {k: plain(v) for k, v in vars(value).items()}
+    return value
+
+
+def observe(proc):
+    """Public accessors of a process, comparable between an original and its loaded copy."""
+
+    def view(fn):
+        try:
+            return ['ok', fn()]
+        except BaseException as exc:  # noqa: BLE001
+            return ['raise', type(exc).__name__, list(exc.args)]
+
+    out = {
+        'pid': proc.pid,
+        'state': proc.state.value,
+        'raw_inputs': plain(proc.raw_inputs) if proc.raw_inputs is not None else None,
+        'inputs': plain(proc.inputs) if proc.inputs is not None else None,
+        'outputs': plain(proc.outputs),
+        'ctx': plain(proc.ctx) if getattr(proc, 'ctx', None) is not None else None,
+        'status': proc.status,
+        'paused': proc.paused,
+        'creation_time': proc.creation_time,
+    }
+    if proc.has_terminated():
+        exc = proc.exception()
+        fut = proc.future()
+        out.update(
+            {
+                'result': view(proc.result),
+                'successful': view(proc.successful),
+                'is_successful': proc.is_successful,
+                'killed': proc.killed(),
+                'killed_msg': view(proc.killed_msg),
+                'exception': None if exc is None else [type(exc).__name__, list(exc.args)],
+                'future_done': fut.done(),
+                'future': view(fut.result) if fut.done() and not fut.cancelled() else None,
+            }
+        )
+    return out
 
 
 def describe_future(fut):
